@@ -1038,6 +1038,40 @@ def _sxrt_call(f, args, kw):
 _NOKW = {}
 
 
+PYMETH_MODELS = {}     # id(python function) -> model(self, *args, **kw)
+
+
+def _wsgiref_add_header(self, _name, _value, **_params):
+    """wsgiref.headers.Headers.add_header with symbolic strings (the
+    original asserts `type(v) is str`)"""
+    parts = []
+    if _value is not None:
+        parts.append(_value)
+    for k, v in _params.items():
+        k = k.replace('_', '-')
+        if v is None:
+            parts.append(k)
+        else:
+            if len(v) > 0:
+                v = lift(v).replace('\\', '\\\\').replace('"', '\\"') \
+                    if isinstance(v, _SSeq) else \
+                    v.replace('\\', '\\\\').replace('"', '\\"')
+                parts.append(SStr(()).join([k, '="', v, '"']))
+            else:
+                parts.append(k + '=""' if False else k)
+    self._headers.append((_name, SStr(()).join(
+        [p for i, q in enumerate(parts)
+         for p in ((['; '] if i else []) + [q])])))
+
+
+try:
+    import wsgiref.headers as _wh
+    PYMETH_MODELS[id(_wh.Headers.add_header)] = _wsgiref_add_header
+    _KEEP.append(_wh.Headers.add_header)
+except ImportError:
+    pass
+
+
 def wrap_global(f):
     """wrapper for a C function imported by name into an instrumented module
     (`from base64 import b64encode`): model when an argument is symbolic"""
@@ -1064,6 +1098,10 @@ def _sxrt_m(recv, name, args, kw):
     f = getattr(recv, name)
     tf = type(f)
     if tf is types.MethodType:
+        if PYMETH_MODELS:
+            m = PYMETH_MODELS.get(id(f.__func__))
+            if m is not None and _has_proxy(args, kw):
+                return m(f.__self__, *args, **kw)
         return f(*args, **kw)
     fid = id(f)
     if tf is types.FunctionType:
